@@ -24,7 +24,7 @@ def u(n):
     return ast.unparse(n)
 
 
-COQ_TY = {"VQ": "(list Z * Z)", "Q": "(Z * Z)", "MQ": "(list (list Z) * Z)", "F": "Z", "VF": "list Z", "VBcol": "list bool", "Z": "Z", "B": "bool", "Pos": "(Z * Z)", "VB": "list bool", "MB": "list (list bool)", "VPos": "list (Z * Z)", "VZ": "list Z",
+COQ_TY = {"Pen": "Z", "VQ": "(list Z * Z)", "Q": "(Z * Z)", "MQ": "(list (list Z) * Z)", "F": "Z", "VF": "list Z", "VBcol": "list bool", "Z": "Z", "B": "bool", "Pos": "(Z * Z)", "VB": "list bool", "MB": "list (list bool)", "VPos": "list (Z * Z)", "VZ": "list Z",
           "MZ": "list (list Z)", "PB": "(bool * bool)", "VPB": "list (bool * bool)", "Ext": "unit", "Key": "unit"}
 
 PRELUDE = r'''(* element-wise operations on small fixed-rank arrays: a (2,) integer array is a pair, an (N, N) integer array a list of rows *)
@@ -155,6 +155,8 @@ class Tr:
                 return "(%s, %s)" % (a, b), "Q"
             if isinstance(n.op, ast.Div) and ta == "MZ" and tb == "Z":
                 return "(%s, %s)" % (a, b), "MQ"        # element-wise float quotient, kept as (numerators, common denominator)
+            if isinstance(n.op, ast.Sub) and ta == "Z" and tb == "Pen":
+                return "(4 * %s - penalty_quarters)" % a, "Z"      # count - float penalty, carried in QUARTERS (Cleaner)
             if isinstance(n.op, ast.Pow) and ta == tb == "Z":
                 return "(Z.pow %s %s)" % (a, b), "Z"
             if isinstance(n.op, ast.Mod) and ta == tb == "Z":
@@ -524,14 +526,18 @@ class Tr:
                         raise Unsupported("choice oracle argument type %s" % (t,))
                     return "(%s %s)" % (coq, v), rt
             raise Unsupported("jax.random.choice call outside the pinned shapes: " + u(n))
+        if f == "jnp.arange" and len(n.args) == 1 and not kws:
+            k_, tk = self.expr(n.args[0])
+            if tk == "Z":
+                return "(zrange %s)" % k_, "VZ"
         if f.startswith("jax.vmap(") and isinstance(n.func, ast.Call) and len(n.func.args) == 2 and not n.func.keywords and u(n.func.args[1]) == "(None, 0)" \
-                and len(n.args) == 2 and not kws and isinstance(n.args[1], ast.Call) and u(n.args[1].func) == "jnp.arange" and len(n.args[1].args) == 1:
+                and len(n.args) == 2 and not kws:
             g, tg = self.expr(n.func.args[0])
             x, tx = self.expr(n.args[0])
-            k_, tk = self.expr(n.args[1].args[0])
-            if tg[0] == "fn" and list(tg[1]) == [tx, "Z"] and tk == "Z" and tg[2] == "B":
-                return "(map (%s %s) (zrange %s))" % (g, x, k_), "VB"
-            raise Unsupported("vmap(f, (None, 0))(x, arange(k)) types")
+            ys, ty_ = self.expr(n.args[1])
+            if tg[0] == "fn" and list(tg[1]) == [tx, "Z"] and ty_ == "VZ" and tg[2] == "B":
+                return "(map (%s %s) %s)" % (g, x, ys), "VB"
+            raise Unsupported("vmap(f, (None, 0))(x, ys) types")
         if f == "jnp.zeros_like" and len(n.args) == 1 and not kws:
             v, t = self.expr(n.args[0])
             if t == "MB":
